@@ -25,6 +25,9 @@ from ..gen import BOUNDARY_CHARS
 REPS = ["é", "€", "😀", "\ud83d", "\udc80", "\x80", "￿"] + BOUNDARY_CHARS[::7]
 CONTEXTS = ["{}", "%{}", "%4{}", "a{}b"]
 
+# parts also run by 4 threads at once in one process (runner adds the jobs; see yv/ctx.py Ctx.threaded)
+SHARED = [("random", {"n": 3000}, {"n": 60000})]
+
 
 def plan(tier, seed):
     thorough = tier == "thorough"
